@@ -10,8 +10,7 @@
      11..19      MODEL mismatch   (1 normalized, 2 sorted, 3 n_keys, 4 minimum_n_keys,
                                    5 at_age, 6 at_lock_time, 7 entails, 8 check_timelocks, 9 lift)
      21..29      ORACLE failure of the same function, not in a known class
-     34 39       ORACLE failure inside a known deviation class (PolTruth: has_dup_keys,
-                 lift_refusal_defect)
+     34          ORACLE failure inside a known deviation class (PolTruth: has_dup_keys)
    Codes >= 30 are tolerated by [cases_ok]; tools/props/c18.py reports them under their
    known_findings key. *)
 From Coq Require Import List NArith Bool Arith ZArith Uint63.
@@ -288,7 +287,7 @@ Definition check_case (c : case) : list N :=
          | 0%N, Some o => flag 29 (isnone (cex_lift c o))
          | 1%N, None =>
              (* refusing to lift is right only when check_timelocks itself refuses *)
-             flag (if lift_refusal_defect c then 39 else 29) (N.eqb ct 0)
+             flag 29 (N.eqb ct 0)
          | _, _ => [29%N]
          end
   end.
